@@ -18,6 +18,30 @@ type Recorder struct {
 	seq    int
 	start  time.Time
 	events []Event
+	stream *os.File // every event is also appended here at once, so that a crash of the process leaves its trace
+	closed bool
+}
+
+// StreamTo makes the recorder append every event to path as it is emitted.
+func (r *Recorder) StreamTo(path string) error {
+	f, err := os.Create(path)
+	if err != nil {
+		return err
+	}
+	r.mu.Lock()
+	r.stream = f
+	r.mu.Unlock()
+	return nil
+}
+
+// CloseStream stops streaming (events emitted later are kept in memory only).
+func (r *Recorder) CloseStream() {
+	r.mu.Lock()
+	defer r.mu.Unlock()
+	if r.stream != nil {
+		r.stream.Close()
+		r.stream = nil
+	}
 }
 
 func New() *Recorder { return &Recorder{start: time.Now()} }
@@ -34,6 +58,11 @@ func (r *Recorder) Emit(actor, ev string, kv ...interface{}) int {
 	e["seq"] = r.seq
 	e["t"] = time.Since(r.start).Milliseconds()
 	r.events = append(r.events, e)
+	if r.stream != nil {
+		if b, err := json.Marshal(e); err == nil {
+			r.stream.Write(append(b, '\n'))
+		}
+	}
 	return r.seq
 }
 
